@@ -469,8 +469,9 @@ def gen_from_parsegen(stream):
         rows = []
         src = parsegen.gen_cases(seed, tier, streams=[stream])
         # the quick tier samples the big streams
-        if tier != 'thorough' and len(src) > 60000:
-            src = rng.sample(src, 60000)
+        cap = {'e': 20000, 's': 30000}.get(stream, 60000)
+        if tier != 'thorough' and len(src) > cap:
+            src = rng.sample(src, cap)
         for k, row in enumerate(src):
             toks = [retext(rng, f) for f in row[2:]]
             rows.append(['BUILD', row[1], STORES[k % 2], str((k // 2) % 3), *toks])
@@ -663,6 +664,8 @@ def main():
         cases = gen_cases(seed, tier, streams)
         for c in cases:
             c[1] = f'{seed}.{c[1]}'
+        # balance the shards: hang-prone streams would otherwise sit in a few shards
+        random.Random(seed).shuffle(cases)
         impl = vlib.run_sharded(vlib.HBIN, cases, 'build.impl', per_case_s=2.0, supervised=True, extra_env={'GH_FLUSH': '1'})
         model = vlib.run_sharded(drv, cases, 'build.model', supervised=False)
         bad = compare(cases, impl, model)
